@@ -1525,3 +1525,293 @@ Proof. intro H. split; [apply fold_state_perm, H|apply fold_status_perm, H]. Qed
 Lemma loaded_invariant t :
   Inv true (fresh t) /\ (Inv false (fresh t) <-> all_counted t = true).
 Proof. split; [apply fresh_weak|apply fresh_strong_iff]. Qed.
+
+(* ================================================================== *)
+(* 10. The sequential semantics is the token semantics under           *)
+(*     schedules that run one call at a time                           *)
+(* ================================================================== *)
+
+Fixpoint tok_run (n : nat) (t : rtree) (k : token) : rtree * token * list state :=
+  match n with
+  | O => (t, k, [])
+  | S n' =>
+      match step_tok t k with
+      | (t', k', out) =>
+          match tok_run n' t' k' with
+          | (t'', k'', outs) =>
+              (t'', k'', match out with Some s => s :: outs | None => outs end)
+          end
+      end
+  end.
+
+Definition lift (i : nat) (k : token) : token := mkTok (i :: tk_path k) (tk_val k) (tk_ph k).
+
+Definition emits (k : token) : bool :=
+  match tk_ph k, tk_path k with PFwd, [] => true | _, _ => false end.
+
+Lemma step_tok_out t k : emits k = false -> snd (step_tok t k) = None.
+Proof.
+  destruct k as [q v ph]. unfold emits, step_tok. cbn [tk_ph tk_path tk_val].
+  destruct ph; intro H.
+  - destruct (get_sub q t) as [[? ? ?|? ? ?]|]; reflexivity.
+  - destruct q; [discriminate|reflexivity].
+  - destruct (st_at q t); reflexivity.
+  - reflexivity.
+Qed.
+
+Lemma step_tok_emits t k : emits k = true -> exists s, snd (step_tok t k) = Some s.
+Proof.
+  destruct k as [q v ph]. unfold emits, step_tok. cbn [tk_ph tk_path tk_val].
+  destruct ph; try discriminate. destruct q; [|discriminate]. intros _. eexists. reflexivity.
+Qed.
+
+Lemma step_tok_lift s x cs i c k c' k' out :
+  nth_error cs i = Some c -> emits k = false ->
+  step_tok c k = (c', k', out) ->
+  step_tok (Agg s x cs) (lift i k) = (Agg s x (replace_nth i c' cs), lift i k', None).
+Proof.
+  intros Hn He Hs.
+  destruct k as [q v ph]. unfold emits in He. unfold lift, step_tok in *.
+  cbn [tk_ph tk_path tk_val] in *.
+  destruct ph.
+  - cbn [get_sub children]. rewrite Hn.
+    destruct (get_sub q c) as [[cr s0 x0|s0 x0 cs0]|] eqn:Hq.
+    + inversion Hs; subst. cbn [map_at]. rewrite Hn. reflexivity.
+    + inversion Hs; subst. rewrite (replace_nth_same _ _ _ Hn). reflexivity.
+    + inversion Hs; subst. rewrite (replace_nth_same _ _ _ Hn). reflexivity.
+  - destruct q as [|a q0]; [discriminate|].
+    inversion Hs; subst. cbn [removelast map_at]. 
+    change (removelast (i :: a :: q0)) with (i :: removelast (a :: q0)).
+    cbn [map_at]. rewrite Hn. reflexivity.
+  - assert (E : st_at (i :: q) (Agg s x cs) = st_at q c).
+    { unfold st_at. cbn [get_sub children]. rewrite Hn. reflexivity. }
+    rewrite E. destruct (st_at q c); inversion Hs; subst;
+      rewrite (replace_nth_same _ _ _ Hn); reflexivity.
+  - inversion Hs; subst. rewrite (replace_nth_same _ _ _ Hn). reflexivity.
+Qed.
+
+Lemma tok_run_lift n : forall s x cs i c k c' k',
+  nth_error cs i = Some c ->
+  tok_run n c k = (c', k', []) ->
+  tok_run n (Agg s x cs) (lift i k) = (Agg s x (replace_nth i c' cs), lift i k', []).
+Proof.
+  induction n as [|n IH]; intros s x cs i c k c' k' Hn Hr.
+  - cbn in *. inversion Hr; subst. rewrite (replace_nth_same _ _ _ Hn). reflexivity.
+  - cbn [tok_run] in *.
+    destruct (step_tok c k) as [[c1 k1] out] eqn:Hs.
+    destruct (tok_run n c1 k1) as [[c2 k2] outs] eqn:Hr2.
+    assert (He : emits k = false).
+    { destruct (emits k) eqn:E; [|reflexivity].
+      destruct (step_tok_emits c k E) as [s0 Hs0]. rewrite Hs in Hs0. cbn in Hs0. subst out.
+      inversion Hr. }
+    pose proof (step_tok_out c k He) as Ho. rewrite Hs in Ho. cbn in Ho. subst out.
+    inversion Hr; subst.
+    rewrite (step_tok_lift s x cs i c k c1 k1 None Hn He Hs).
+    assert (Hn1 : nth_error (replace_nth i c1 cs) i = Some c1).
+    { apply nth_error_replace_same. apply nth_error_Some. congruence. }
+    rewrite (IH s x (replace_nth i c1 cs) i c1 k1 c' k' Hn1 Hr2).
+    rewrite replace_nth_twice. reflexivity.
+Qed.
+
+Lemma tok_run_done n : forall t k, tk_ph k = PDone -> tok_run n t k = (t, k, []).
+Proof.
+  induction n as [|n IH]; intros t k H; [reflexivity|].
+  cbn [tok_run]. unfold step_tok. rewrite H. rewrite (IH t k H). reflexivity.
+Qed.
+
+Lemma tok_run_add n m t k :
+  tok_run (n + m) t k =
+  match tok_run n t k with
+  | (t1, k1, o1) => match tok_run m t1 k1 with (t2, k2, o2) => (t2, k2, o1 ++ o2) end
+  end.
+Proof.
+  revert t k. induction n as [|n IH]; intros t k.
+  - cbn. destruct (tok_run m t k) as [[? ?] ?]. reflexivity.
+  - cbn [Nat.add tok_run]. destruct (step_tok t k) as [[t' k'] out].
+    rewrite IH. destruct (tok_run n t' k') as [[t1 k1] o1].
+    destruct (tok_run m t1 k1) as [[t2 k2] o2]. destruct out; reflexivity.
+Qed.
+
+(* after 2*depth+1 steps the call has done everything but telling the ParentAdapter *)
+Lemma alone_run : forall p v t,
+  exists k', tok_run (2 * length p + 1) t (mkTok p v PWrite) = (fst (upd_state p v t), k', []) /\
+             match snd (upd_state p v t) with
+             | Some s => k' = mkTok [] s PFwd
+             | None => tk_ph k' = PDone
+             end.
+Proof.
+  induction p as [|i p IH]; intros v t.
+  - cbn [length Nat.mul Nat.add tok_run]. unfold step_tok. cbn [tk_ph tk_path tk_val get_sub].
+    destruct t as [c s x|s x cs]; cbn [map_at write_leaf_f upd_state fst snd].
+    + destruct c; eexists; split; reflexivity.
+    + eexists; split; reflexivity.
+  - replace (2 * length (i :: p) + 1)%nat with ((2 * length p + 1) + 2)%nat by (cbn [length]; lia).
+    destruct t as [c s x|s x cs].
+    { (* below a leaf: nothing *)
+      exists (mkTok (i :: p) v PDone). split; [|reflexivity].
+      replace (2 * length p + 1 + 2)%nat with (S (2 * length p + 2))%nat by lia.
+      cbn [tok_run]. unfold step_tok at 1. cbn [tk_ph tk_path tk_val get_sub children].
+      assert (E : nth_error (@nil rtree) i = None) by (destruct i; reflexivity).
+      rewrite E. rewrite tok_run_done by reflexivity. reflexivity. }
+    cbn [upd_state].
+    destruct (nth_error cs i) as [c|] eqn:Hn.
+    2:{ exists (mkTok (i :: p) v PDone). split; [|reflexivity].
+        replace (2 * length p + 1 + 2)%nat with (S (2 * length p + 2))%nat by lia.
+        cbn [tok_run]. unfold step_tok at 1. cbn [tk_ph tk_path tk_val get_sub children].
+        rewrite Hn. rewrite tok_run_done by reflexivity. reflexivity. }
+    destruct (IH v c) as [k1 [Hrun Hk1]].
+    rewrite tok_run_add.
+    change (mkTok (i :: p) v PWrite) with (lift i (mkTok p v PWrite)).
+    rewrite (tok_run_lift _ s x cs i c _ _ _ Hn Hrun).
+    destruct (upd_state p v c) as [c' fwd]. cbn [fst snd] in *.
+    destruct fwd as [s1|].
+    + subst k1. cbn [fst snd].
+      exists (mkTok [] (merge_state s s1 (replace_nth i c' cs)) PFwd). split; [|reflexivity].
+      cbn [tok_run]. unfold step_tok, lift. cbn [tk_ph tk_path tk_val removelast map_at merge_f].
+      unfold st_at. cbn [get_sub st_of]. reflexivity.
+    + cbn [fst snd]. exists (lift i k1). split; [|exact Hk1].
+      rewrite tok_run_done by exact Hk1. reflexivity.
+Qed.
+
+Lemma run_sched_cons i s c : run_sched (i :: s) c = run_sched s (cstep i c).
+Proof. reflexivity. Qed.
+
+(* stepping entry i of the token list only touches that entry *)
+Lemma run_sched_repeat n : forall i t toks ad k,
+  nth_error toks i = Some k ->
+  run_sched (repeat i n) (mkC t toks ad) =
+  match tok_run n t k with
+  | (t', k', outs) => mkC t' (replace_nth i k' toks) (ad ++ outs)
+  end.
+Proof.
+  induction n as [|n IH]; intros i t toks ad k Hk.
+  - cbn. rewrite (replace_nth_same _ _ _ Hk), app_nil_r. reflexivity.
+  - cbn [repeat]. rewrite run_sched_cons. unfold cstep. cbn [c_toks c_tree c_adapter].
+    rewrite Hk. cbn [tok_run].
+    destruct (step_tok t k) as [[t1 k1] out].
+    rewrite (IH i t1 (replace_nth i k1 toks) _ k1).
+    + destruct (tok_run n t1 k1) as [[t2 k2] outs]. rewrite replace_nth_twice.
+      destruct out; [rewrite <- app_assoc|]; reflexivity.
+    + apply nth_error_replace_same. apply nth_error_Some. congruence.
+Qed.
+
+Lemma alone_full p v t :
+  exists k', tok_run (alone_steps p) t (mkTok p v PWrite) =
+             (fst (upd_state p v t), k',
+              match snd (upd_state p v t) with Some s => [s] | None => [] end) /\
+             tk_ph k' = PDone.
+Proof.
+  unfold alone_steps.
+  replace (2 * length p + 2)%nat with ((2 * length p + 1) + 1)%nat by lia.
+  destruct (alone_run p v t) as [k1 [Hrun Hk1]].
+  rewrite tok_run_add, Hrun.
+  destruct (snd (upd_state p v t)) as [s|].
+  - subst k1. eexists. split; reflexivity.
+  - exists k1. rewrite tok_run_done by exact Hk1. split; [reflexivity|exact Hk1].
+Qed.
+
+Lemma run_alone_spec p v t :
+  c_tree (run_alone p v t) = fst (upd_state p v t) /\
+  quiescent (run_alone p v t) = true /\
+  c_adapter (run_alone p v t) = match snd (upd_state p v t) with Some s => [s] | None => [] end.
+Proof.
+  unfold run_alone, cinit, pending. cbn [map fst snd].
+  rewrite (run_sched_repeat (alone_steps p) 0 t [mkTok p v PWrite] [] (mkTok p v PWrite) eq_refl).
+  destruct (alone_full p v t) as [k' [Hrun Hk']]. rewrite Hrun.
+  cbn [c_tree c_adapter c_toks replace_nth app]. repeat split.
+  unfold quiescent. cbn [c_toks forallb]. unfold tok_done. rewrite Hk'. reflexivity.
+Qed.
+
+(* several calls, one after the other *)
+Fixpoint seq_sched_from (j : nat) (ups : list (list nat * state)) : list nat :=
+  match ups with
+  | [] => []
+  | u :: r => repeat j (alone_steps (fst u)) ++ seq_sched_from (S j) r
+  end.
+Definition seq_sched (ups : list (list nat * state)) : list nat := seq_sched_from 0 ups.
+
+Definition ops_of (ups : list (list nat * state)) : list op :=
+  map (fun u => OpState (fst u) (snd u)) ups.
+
+Lemma run_sched_app s1 s2 c : run_sched (s1 ++ s2) c = run_sched s2 (run_sched s1 c).
+Proof. unfold run_sched. apply fold_left_app. Qed.
+
+Lemma seq_sched_run : forall ups pre t ad,
+  forallb tok_done pre = true ->
+  let c := run_sched (seq_sched_from (length pre) ups) (mkC t (pre ++ pending ups) ad) in
+  c_tree c = run_ops (ops_of ups) t /\ quiescent c = true.
+Proof.
+  induction ups as [|[p v] ups IH]; intros pre t ad Hpre; cbn zeta.
+  - cbn [seq_sched_from run_sched fold_left pending map ops_of run_ops c_tree].
+    split; [reflexivity|]. unfold quiescent. cbn [c_toks]. rewrite app_nil_r. exact Hpre.
+  - cbn [seq_sched_from pending map fst snd ops_of run_ops fold_left apply_op].
+    rewrite run_sched_app.
+    assert (Hk : nth_error (pre ++ mkTok p v PWrite :: pending ups) (length pre) =
+                 Some (mkTok p v PWrite)).
+    { rewrite nth_error_app2 by lia. rewrite Nat.sub_diag. reflexivity. }
+    rewrite (run_sched_repeat _ _ _ _ _ _ Hk).
+    destruct (alone_full p v t) as [k' [Hrun Hk']]. rewrite Hrun.
+    rewrite replace_nth_app.
+    replace (pre ++ k' :: pending ups) with ((pre ++ [k']) ++ pending ups)
+      by (rewrite <- app_assoc; reflexivity).
+    replace (S (length pre)) with (length (pre ++ [k'])) by (rewrite app_length; cbn; lia).
+    apply IH.
+    rewrite forallb_app, Hpre. cbn. unfold tok_done. rewrite Hk'. reflexivity.
+Qed.
+
+Lemma sequential_schedules t ups :
+  let c := run_sched (seq_sched ups) (cinit t ups) in
+  c_tree c = run_ops (ops_of ups) t /\ quiescent c = true.
+Proof. exact (seq_sched_run ups [] t [] eq_refl). Qed.
+
+Lemma upd_state_is_agg p v t : is_agg (fst (upd_state p v t)) = is_agg t.
+Proof.
+  destruct p as [|i p], t as [c s x|s x cs]; cbn; try reflexivity.
+  destruct (nth_error cs i) as [c|]; [|reflexivity].
+  destruct (upd_state p v c) as [c' [f|]]; reflexivity.
+Qed.
+Lemma upd_status_is_agg p v t : is_agg (fst (upd_status p v t)) = is_agg t.
+Proof.
+  destruct p as [|i p], t as [c s x|s x cs]; cbn; try reflexivity.
+  destruct (nth_error cs i) as [c|]; [|reflexivity].
+  destruct (upd_status p v c) as [c' [f|]]; reflexivity.
+Qed.
+Lemma run_ops_is_agg ops : forall t, is_agg (run_ops ops t) = is_agg t.
+Proof.
+  induction ops as [|o ops IH]; intro t; [reflexivity|].
+  cbn [run_ops fold_left]. fold (run_ops ops (apply_op o t)). rewrite IH.
+  destruct o; cbn [apply_op]; [apply upd_state_is_agg|apply upd_status_is_agg].
+Qed.
+Lemma is_agg_fresh t : is_agg (fresh t) = is_agg t.
+Proof. destruct t; reflexivity. Qed.
+
+(* hence, run one call at a time, nothing is invented either *)
+Lemma not_invented_sequential t0 ups :
+  all_counted t0 = true -> is_agg t0 = true ->
+  let c := run_sched (seq_sched ups) (cinit (fresh t0) ups) in
+  quiescent c = true /\
+  (st_of (c_tree c) = ERROR <-> In ERROR (crit_states (c_tree c))).
+Proof.
+  intros Hc Ha. cbn zeta.
+  destruct (sequential_schedules (fresh t0) ups) as [Ht Hq]. split; [exact Hq|].
+  rewrite Ht.
+  apply (error_iff_seq (fresh t0) (ops_of ups) [] _); [apply fresh_strong_iff, Hc|reflexivity|].
+  rewrite run_ops_is_agg, is_agg_fresh. exact Ha.
+Qed.
+
+(* two consistent roles whose critical descendants hold the same states (as multisets) report
+   the same state, whatever the nesting and the order of the roles between them and the tasks;
+   likewise for the statuses of all descendants *)
+Lemma report_depends_on_multiset t t' :
+  Inv false t -> Inv false t' -> is_agg t = true -> is_agg t' = true ->
+  (Permutation (crit_states t) (crit_states t') -> st_of t = st_of t') /\
+  (Permutation (leaf_stats t) (leaf_stats t') -> stat_of t = stat_of t').
+Proof.
+  intros Hi Hi' Ha Ha'.
+  destruct (deep_fold t Hi) as [H1 H2]. destruct (deep_fold t' Hi') as [H1' H2'].
+  destruct t as [|s x cs]; [discriminate|]. destruct t' as [|s' x' cs']; [discriminate|].
+  unfold contrib in H1, H1'. cbn [counted st_of] in H1, H1'. cbn [st_of stat_of] in *.
+  split; intro HP.
+  - rewrite H1, H1'. apply foldX_perm, HP.
+  - rewrite H2, H2'. apply foldS_perm, HP.
+Qed.
